@@ -104,6 +104,16 @@ def resolve(name: str, host: str) -> str:
     return name.replace("{HOST}", host)
 
 
+def _payload(e) -> bytes:
+    """member bytes: the text, or for a 'nested' member a real ZIP archive holding that text (it must never be unpacked)"""
+    if e.get("skipped") == "nested":
+        buf = io.BytesIO()
+        with zipfile.ZipFile(buf, "w") as z:
+            z.writestr("inner/n.txt", e["text"])
+        return buf.getvalue()
+    return e["text"].encode()
+
+
 def build(case, host: str) -> bytes:
     kind = case["kind"]
     ents = case["entries"]
@@ -120,7 +130,7 @@ def build(case, host: str) -> bytes:
                 zi.compress_type = zipfile.ZIP_DEFLATED
                 if e["k"] == "dir":
                     zi.external_attr = 0x10
-                z.writestr(zi, b"" if e["k"] == "dir" else e["text"].encode())
+                z.writestr(zi, b"" if e["k"] == "dir" else _payload(e))
         return buf.getvalue()
     if kind.startswith("tar"):
         mode = {"tar": "w:", "tar.gz": "w:gz", "tar.bz2": "w:bz2", "tar.xz": "w:xz"}[kind]
@@ -131,7 +141,7 @@ def build(case, host: str) -> bytes:
                 ti.mtime = 1709294400
                 k = e["k"]
                 if k == "file":
-                    data = e["text"].encode()
+                    data = _payload(e)
                     ti.size = len(data)
                     tf.addfile(ti, io.BytesIO(data))
                     continue
@@ -152,7 +162,7 @@ def build(case, host: str) -> bytes:
         elif e["k"] == "empty":
             members.append(sevenz.Member(name, b"", False))
         else:
-            members.append(sevenz.Member(name, e["text"].encode(), False))
+            members.append(sevenz.Member(name, _payload(e), False))
     o = case.get("sz", {})
     return sevenz.write_7z(members, method=o.get("method", "copy"), layout=o.get("layout", "solid"), encode_header=o.get("encode_header", False))
 
@@ -160,9 +170,12 @@ def build(case, host: str) -> bytes:
 HOSTILE_NAMES = ["{HOST}/secret.txt", "{HOST}/notes.md", "{HOST}/sub/deep.csv", "../host/secret.txt", "../../host/secret.txt", "../../../host/secret.txt", "../../../../host/notes.md",
                  "a/../../../host/secret.txt", "..\\..\\host\\secret.txt", "C:\\Windows\\win.txt", "C:/x/y.txt", "/etc/passwd.txt", "//server/share/f.txt", "./x.txt", "a//b.txt", "a/./b.txt",
                  "", "/", "dir/", "x" * 320 + ".txt", "Ünï/文書.txt", "😀.md", "sp ace/ta\tb.txt", "a/..", "..", ".", "new\nline.txt", "{HOST}/newfile.txt", "../../host/created.txt",
-                 "../../host/sub/newdir/created.csv", "~/.bashrc.txt", "%2e%2e/%2e%2e/host/secret.txt"]
+                 "../../host/sub/newdir/created.csv", "~/.bashrc.txt", "%2e%2e/%2e%2e/host/secret.txt",
+                 # backslash separators behind an ordinary first segment (not hidden, supported extension): a reader that maps "\\" to the host separator walks out
+                 "docs\\..\\..\\host\\secret.txt", "a\\..\\..\\..\\host\\notes.md", "docs\\..\\..\\..\\..\\host\\secret.txt", "docs\\..\\..\\..\\host\\secret.txt"]
 BENIGN_NAMES = ["ok.txt", "docs/readme.md", "data/table.csv", "deep/er/path/note.txt"]
-SKIPPED = [(".hidden.txt", "hidden"), ("__MACOSX/._res.txt", "macosx"), ("inner.zip", "nested"), ("blob.bin", "unsupported"), ("docs/.DS_Store.txt", "hidden")]
+SKIPPED = [(".hidden.txt", "hidden"), ("__MACOSX/._res.txt", "macosx"), ("inner.zip", "nested"), ("blob.bin", "unsupported"), ("docs/.DS_Store.txt", "hidden"),
+           ("backup/OLD.ZIP", "nested"), ("Inner.Zip", "nested"), ("a/b.zIp", "nested")]
 TARGETS = ["{HOST}/secret.txt", "../../host/secret.txt", "../../../host/notes.md", "/etc/hostname", "ok.txt", "{HOST}/sub"]
 
 
@@ -200,6 +213,10 @@ def cases(draw, kind):
             entries.append({"k": k, "name": draw(st.sampled_from(HOSTILE_NAMES + BENIGN_NAMES))})
         else:
             entries.append({"k": "file", "name": draw(st.sampled_from(HOSTILE_NAMES)), "text": body()})
+    # a name that walks out through backslashes needs its first segment to exist as a directory for the walk to resolve: add an ordinary member there
+    for first, real in (("docs\\", "docs/readme.md"), ("a\\", "a/x.txt")):
+        if any(e["name"].startswith(first) for e in entries) and not any(e["name"] == real for e in entries):
+            entries.insert(0, {"k": "file", "name": real, "text": body()})
     # unique names are not required by any of the formats; keep duplicates sometimes
     consumer = draw(st.sampled_from([{"kind": "exhaust"}, {"kind": "exhaust"}, {"kind": "take-close", "k": 1}, {"kind": "take-close", "k": 0}, {"kind": "abandon", "k": 1}, {"kind": "throw", "k": 1},
                                      {"kind": "throw", "k": 0}, {"kind": "take-close", "k": 2}]))
@@ -291,10 +308,26 @@ def evaluate(ctx: Ctx, case, worker: Worker, part: Partial | None = None):
     return [Violation(c, sig, f"[{case['kind']} consumer={case['consumer']}] {d}; all: {[x for x, _ in fails]}; names={[e['name'][:50] for e in case['entries']]}", {"kind": "archive", "format": case["kind"], "model": case})]
 
 
+def curated_cases(kind: str):
+    """every hostile name on its own between two ordinary members (in a drawn archive several hostile names usually sit together, and the first one that makes the reader give up hides the others)"""
+    out = []
+    for i, name in enumerate(HOSTILE_NAMES):
+        ents = [{"k": "file", "name": "docs/readme.md", "text": "member text ZBM9001\n"}, {"k": "file", "name": "a/x.txt", "text": "member text ZBM9002\n"},
+                {"k": "file", "name": name, "text": f"member text ZBM{9100 + i}\n"}, {"k": "file", "name": "data/table.csv", "text": "member text ZBM9003\n"}]
+        case = {"kind": kind, "entries": ents, "consumer": {"kind": "exhaust"}}
+        if kind == "7z":
+            case["sz"] = {"method": "copy", "layout": "per-file" if i % 2 else "solid", "encode_header": False}
+        out.append(case)
+    return out
+
+
 def shard(ctx: Ctx, kind: str):
     part = Partial()
     worker = Worker()
     try:
+        for case in curated_cases(kind):
+            part.violations += evaluate(ctx, case, worker, part)
+        part.exhaustive[f"{kind}: every hostile name alone between ordinary members"] = len(HOSTILE_NAMES)
         hyp_search(ctx, f"c09-{kind}", cases(kind), lambda c: evaluate(ctx, c, worker, part), ctx.n(160, 3000), part)
     finally:
         worker.close()
